@@ -201,7 +201,7 @@ func H19q0() {
 
 func H19q0_twin() {
 	e := hqProto(&hState{xor: hHash(1), clock: vU32()})
-	ret, _, handled := e.deliver(&Envelope{Message: &Envelope_Gossip{Gossip: &Gossip{LC: vU32()}}})
+	ret, _, handled := e.deliver(&Envelope{Message: &Envelope_Gossip{Gossip: &Gossip{XOR: make([]byte, 32), LC: vU32()}}})
 	if ret == nil && handled && len(e.conn.sent) == 1 && e.conn.sent[0].GetState() != nil {
 		vAssert(false, "H19q0_twin.reach: reachable")
 	}
@@ -264,7 +264,7 @@ func H19qa() {
 
 func H19qa_twin() {
 	e := hqProto(&hState{xor: hHash(2), clock: vU32()})
-	msg := &Gossip{XOR: vBytes(31), LC: vU32(), Transactions: [][]byte{{}, vBytes(33)}}
+	msg := &Gossip{XOR: vBytes(32), LC: vU32(), Transactions: [][]byte{vBytes(32)}}
 	_, _, _ = e.deliver(&Envelope{Message: &Envelope_Gossip{Gossip: msg}})
 	if len(e.conn.sent) == 1 && e.conn.sent[0].GetTransactionListQuery() != nil && msg.LC == 5 {
 		vAssert(false, "H19qa_twin.reach: reachable")
@@ -304,7 +304,7 @@ func H19qb_twin() {
 	e := hqProto(&hState{xor: hHash(2), clock: vU32()})
 	msg := &State{ConversationID: hqCid(1), XOR: hqBytes(false, false), LC: vU32()}
 	_, _, _ = e.deliver(&Envelope{Message: &Envelope_State{State: msg}})
-	if len(e.conn.sent) == 1 && len(msg.XOR) == 33 && msg.LC == 7 {
+	if len(e.conn.sent) == 1 && len(msg.XOR) == 32 && msg.LC == 7 {
 		vAssert(false, "H19qb_twin.reach: reachable")
 	}
 }
@@ -360,7 +360,7 @@ func H19qc() {
 		askCID = e.conn.sent[0].GetState().ConversationID
 		e.conn.sent = nil
 	}
-	cid := hqCid(vParam("cid", 6)) // the open id has 5 bytes
+	cid := hqCid(vParam("cidc", 6)) // the open id has 5 bytes (own parameter name: parameters are shared by the entries of one run)
 	kind := vChoice(hqFKinds)
 	msg := &TransactionSet{ConversationID: cid, LCReq: vU32(), LC: vU32(), IBLT: hqFilter(kind)}
 	ret, herr, handled := e.deliver(&Envelope{Message: &Envelope_TransactionSet{TransactionSet: msg}})
@@ -856,7 +856,7 @@ func H19qr_twin() {
 	e := hqProto(&hState{txs: []*hTx{tx}})
 	ref := hqSparseRef(false)
 	_, herr, _ := e.deliver(&Envelope{Message: &Envelope_TransactionPayload{TransactionPayload: &TransactionPayload{TransactionRef: ref, Data: []byte{7}}}})
-	if herr != nil && len(ref) == 33 && len(e.st.gets) == 1 {
+	if herr != nil && len(ref) == 33 {
 		vAssert(false, "H19qr_twin.reach: reachable")
 	}
 }
